@@ -75,11 +75,21 @@ pub fn draw_plan(rng: &mut Prng, n: usize, key_seed: [u8; 32], verify_sample: Op
         }
     }
     let sequentialish = rng.chance(1, 8);
+    // pre-emption density: pick a budget of expected switches for the whole run
+    // and derive k from it, so that "pre-empt every few draws" happens in runs
+    // with few operations and long runs are pre-empted sparsely
+    let sign_ops: u64 = threads.iter().flatten().filter(|o| matches!(o, Op::Sign { .. })).count() as u64;
+    let draws = sign_ops.max(1) * (n as u64) * 50;
+    let budget = *rng.pick(&[10u64, 30, 100, 300, 1000, 3000, 6000]);
+    let mut k = 3u32;
+    while k < 20 && (draws >> k) > budget {
+        k += 1;
+    }
     WorldPlan {
         n,
         key_seeds: vec![key_seed],
         sched_seed: rng.next_u64(),
-        switch_exp: if sequentialish { None } else { Some(*rng.pick(&[3u32, 5, 6, 7, 7, 8, 9, 9, 10, 11, 11, 12, 13, 14, 15, 16])) },
+        switch_exp: if sequentialish { None } else { Some(k) },
         boundary: if sequentialish { 0 } else { rng.below(257) as u32 },
         threads,
     }
@@ -297,13 +307,22 @@ fn minimise<V: Variant>(plan: &WorldPlan, keys: Keys<V>, class: &str) -> WorldPl
     cur
 }
 
-fn one_run<V: Variant>(seed: u64, run: u64, pool: &KeyPool<V>, keysets: &[Keys<V>]) -> RunOutcome {
+fn one_run<V: Variant>(seed: u64, run: u64, pool: &KeyPool<V>) -> RunOutcome {
     let mut rng = Prng::new(report::run_seed(seed, PROP, run));
     let ki = rng.usize_below(pool.keys.len());
     let k = &pool.keys[ki];
     let vs = k.sigs.first().cloned();
     let plan = draw_plan(&mut rng, V::N, k.seed, vs);
-    let keys = keysets[ki].clone();
+    // the key object is decoded inside this run's own process
+    let keys: Keys<V> = match k.load() {
+        Ok(kp) => Arc::new(vec![kp]),
+        Err(e) => {
+            let mut out = RunOutcome::default();
+            out.stats.inc("harness.pool_key_not_loadable");
+            out.stats.notes.insert(format!("pool key could not be decoded: {}", e));
+            return out;
+        }
+    };
     let v = run_plan::<V>(&plan, keys.clone(), true);
     let mut out = RunOutcome::default();
     out.stats = v.stats;
@@ -349,8 +368,14 @@ pub fn replay(doc: &Value) -> Option<String> {
     run_plan_dyn(&plan)?.class.map(|c| c.0)
 }
 
-pub fn check(tier: Tier, seed: u64) -> i32 {
-    let mut rep = Report::new(PROP, tier, seed);
+pub struct Ctx {
+    pub p512: KeyPool<V512>,
+    pub p1024: KeyPool<V1024>,
+    pub runs512: u64,
+    pub runs1024: u64,
+}
+
+pub fn context(tier: Tier, seed: u64) -> Result<Ctx, String> {
     let w = report::workers();
     let (runs512, runs1024, k512, k1024) = match tier {
         Tier::Quick => (1300u64, 300u64, 16, 6),
@@ -359,26 +384,45 @@ pub fn check(tier: Tier, seed: u64) -> i32 {
     let pseed = report::run_seed(seed, "pool", 0);
     let p512: KeyPool<V512> = KeyPool::build(pseed, k512, 1, w);
     let p1024: KeyPool<V1024> = KeyPool::build(pseed ^ 0x1024, k1024, 1, w);
-    // a key pool that cannot be built is itself a C01-relevant failure: keygen or
-    // the very first signature does not work on this tree
     for (n, fails, nkeys) in [(512, p512.failures.len(), p512.keys.len()), (1024, p1024.failures.len(), p1024.keys.len())] {
         if fails > 0 || nkeys == 0 {
-            eprintln!("HARNESS-ERROR: key pool for variant {} could not be built ({} failures)", n, fails);
-            return 2;
+            return Err(format!("key pool for variant {} could not be built ({} failures)", n, fails));
         }
     }
-    let ks512: Vec<Keys<V512>> = p512.keys.iter().map(|k| Arc::new(vec![(k.sk.clone(), k.pk.clone())])).collect();
-    let ks1024: Vec<Keys<V1024>> = p1024.keys.iter().map(|k| Arc::new(vec![(k.sk.clone(), k.pk.clone())])).collect();
-    // each run spawns up to 10 threads of which one executes: use all workers
-    let out = report::parallel_runs(runs512 + runs1024, w, |run| {
-        if run < runs1024 {
-            one_run::<V1024>(seed, run, &p1024, &ks1024)
-        } else {
-            one_run::<V512>(seed, run, &p512, &ks512)
+    Ok(Ctx { p512, p1024, runs512, runs1024 })
+}
+
+fn dispatch(ctx: &Ctx, seed: u64, run: u64) -> RunOutcome {
+    // the expensive Falcon-1024 runs are scheduled first
+    if run < ctx.runs1024 {
+        one_run::<V1024>(seed, run, &ctx.p1024)
+    } else {
+        one_run::<V512>(seed, run, &ctx.p512)
+    }
+}
+
+pub fn rerun(tier: Tier, seed: u64, run: u64) -> Option<RunOutcome> {
+    let ctx = context(tier, seed).ok()?;
+    Some(dispatch(&ctx, seed, run))
+}
+
+pub fn check(tier: Tier, seed: u64) -> i32 {
+    let mut rep = Report::new(PROP, tier, seed);
+    let w = report::workers();
+    let ctx = match context(tier, seed) {
+        Ok(c) => c,
+        Err(e) => {
+            eprintln!("HARNESS-ERROR: {}", e);
+            return 2;
         }
-    });
+    };
+    let out = report::parallel_runs(ctx.runs512 + ctx.runs1024, w, |run| dispatch(&ctx, seed, run));
     rep.absorb(out);
-    rep.rule = "a case is one sign (or verifier-thread verify) operation inside a seeded multi-thread plan: 1-8 signer threads and 0-2 verifier threads share one key under the baton scheduler (pre-emption probability 2^-k per entropy draw, k in 3..16 per run, plus operation boundaries), each sign with its own simulator entropy stream in mode E1/E2/E3/E4 and optional buggify-forced retries; non-trivial = the call was pre-empted mid-call, or took a natural or forced retry, or had an entropy fault land; distinct = distinct (schedule trace, thread, resulting signature)".into();
+    if rep.stats.counters.get("harness.pool_key_not_loadable").copied().unwrap_or(0) > 0 {
+        eprintln!("HARNESS-ERROR: pool keys could not be decoded by SecretKey/PublicKey::from_bytes on this tree (see C05)");
+        return 2;
+    }
+    rep.rule = "a case is one sign (or verifier-thread verify) operation inside a seeded multi-thread plan: 1-8 signer threads and 0-2 verifier threads share one key under the baton scheduler (pre-emption probability 2^-k per entropy draw, k in 3..20 chosen per run from a budget of 10..6000 expected switches, plus operation boundaries), each sign with its own simulator entropy stream in mode E1/E2/E3/E4 and optional buggify-forced retries; non-trivial = the call was pre-empted mid-call, or took a natural or forced retry, or had an entropy fault land; distinct = distinct (schedule trace, thread, resulting signature)".into();
     rep.assumptions = vec![
         "all of sign's randomness flows through the hooked generator (hook H1); a generator created elsewhere is only visible to C08(b) and to the interleaved==sequential comparison".into(),
         "keys come from a per-invocation pool generated by the current tree".into(),
